@@ -39,6 +39,7 @@ type Case struct {
 	Input    *string  `json:"input,omitempty"` // nil: the read fails
 	ExitCode int      `json:"exit_code,omitempty"`
 	Stdout   string   `json:"stdout,omitempty"`
+	GoDoc    string   `json:"go_doc,omitempty"` // a Go-typed document as a gval term
 }
 
 type Violation struct {
@@ -229,6 +230,8 @@ func (c *Case) coq() string {
 		return fmt.Sprintf("CA (ACase %d %s %s %s)", c.ID, coqBytes(c.Expr), coqBool(c.CmpOff), c.goAst.coq())
 	case "tok":
 		return fmt.Sprintf("CT (TCase %d %s %s)", c.ID, coqBytes(c.Expr), c.goTok.coq())
+	case "go":
+		return fmt.Sprintf("CG (GCase %d %s %s %s)", c.ID, coqBytes(c.Expr), c.GoDoc, c.goObs.coq())
 	case "cli":
 		args := make([]string, len(c.Args))
 		for i, a := range c.Args {
